@@ -66,9 +66,6 @@ RunF2(S, csA, csB, m0, rowA, rowB, tf, wa, wb) ==
        IN IF ~Run2(s4) THEN [s |-> s4, pr |-> <<>>, wa |-> wa2, wb |-> wb2]
           ELSE [s |-> Sample2(ClearHooks(s4), m0), pr |-> <<Proj2(s4, minute, csA[Len(csA)], wa2, csB[Len(csB)], wb2)>>, wa |-> wa2, wb |-> wb2]
 \* end of the session: for r in routes: r.strategy._terminate(); _execute_market_orders()   then the final sample
-Terminate1(s, minute) ==          \* Strategy._terminate without the trailing flush and sample
-  IF ~Running(s) THEN s ELSE
-  LET s1 == DetectMods(s, s.cur) IN s1
 Terminate2(S, minute) ==
   IF ~Run2(S) THEN S ELSE
   LET tA(x) == IF x.q # 0 THEN ReduceAt(x, Abs(x.q), x.cur, x.cur, "close") ELSE IF x.ords # <<>> THEN ExecuteCancel(x) ELSE x
